@@ -44,6 +44,11 @@ func gScalar(r *rand.Rand, params Params, allowVar, allowParam bool) GTerm {
 			return GTerm{"$" + v, ast.Var(v)}
 		case 1:
 			i := Pick(r, []int64{0, 1, 2, 7, 42, 1 << 31, 1<<63 - 1, 100, 5})
+			if r.Intn(6) == 0 {
+				// "integer is any base-10 int64": leading zeros do not change the base
+				j := Pick(r, []int64{0, 7, 8, 9, 10, 17, 100})
+				return GTerm{Pick(r, []string{"0", "00", "000"}) + fmt.Sprint(j), ast.Int(j)}
+			}
 			return GTerm{fmt.Sprint(i), ast.Int(i)}
 		case 2, 3:
 			s := Pick(r, gStrings)
@@ -141,10 +146,10 @@ func layoutSep(r *rand.Rand, s string) string {
 
 // GNode is a syntax tree node; Paren nodes are explicit.
 type GNode struct {
-	Leaf  *GTerm
-	Un    int // ast.UNegate / ast.ULength / ast.UParens, -1 if none
-	Bin   int
-	Kids  []*GNode
+	Leaf *GTerm
+	Un   int // ast.UNegate / ast.ULength / ast.UParens, -1 if none
+	Bin  int
+	Kids []*GNode
 }
 
 var gInfix = []int{ast.BOr, ast.BAnd, ast.BLessThan, ast.BGreaterThan, ast.BLessOrEqual, ast.BGreaterOrEqual, ast.BEqual, ast.BAdd, ast.BSub, ast.BMul, ast.BDiv}
@@ -184,9 +189,16 @@ func paren(n *GNode) *GNode { return &GNode{Un: ast.UParens, Bin: -1, Kids: []*G
 // normalize inserts the parenthesis nodes that the documented precedence and associativity
 // REQUIRE, and redundant ones with probability pRedundant.
 func (n *GNode) normalize(r *rand.Rand, pRedundant float64) *GNode {
+	// redundant parentheses come singly, doubled or tripled: ((x)) is two Parens operators
+	again := func(g *GNode) *GNode {
+		for r.Intn(3) == 0 {
+			g = paren(g)
+		}
+		return g
+	}
 	if n.Leaf != nil {
 		if r.Float64() < pRedundant/2 {
-			return paren(n)
+			return again(paren(n))
 		}
 		return n
 	}
@@ -214,7 +226,7 @@ func (n *GNode) normalize(r *rand.Rand, pRedundant float64) *GNode {
 		}
 	}
 	if r.Float64() < pRedundant {
-		return paren(out)
+		return again(paren(out))
 	}
 	return out
 }
